@@ -12,7 +12,7 @@ use crate::ops::*;
 use crate::payload::*;
 use crate::seam;
 use crate::shadow::*;
-use crate::tok::{self, Injected};
+use crate::tok::{self, Injected, Tok};
 use crate::world::*;
 
 /// What the generator may look at when it draws the next op of a callback.
@@ -215,12 +215,21 @@ impl<'w, 'r, 'gc> Cb<'w, 'r, 'gc> {
             return false;
         }
         if any.addr() != addr {
-            self.viol("C01.read", format!("{why}: pointer to {id} has a different address than at allocation"));
+            let o = if matches!(kind, Kind::Lay { .. }) { "C17.moved" } else { "C01.read" };
+            self.viol(o, format!("{why}: pointer to {id} has a different address than at allocation"));
             return false;
         }
-        if access::kind_of(any) != kind {
-            self.viol("C01.read", format!("{why}: pointer to {id} has kind {:?}, expected {kind:?}", access::kind_of(any)));
+        let real_kind = access::kind_of(any);
+        let opaque = matches!(kind, Kind::Lay { .. } | Kind::Built { .. } | Kind::ZstShared);
+        if (opaque && !matches!(access::canon(any), AnyGc::Opaque(_))) || (!opaque && real_kind != kind) {
+            self.viol("C01.read", format!("{why}: pointer to {id} has kind {real_kind:?}, expected {kind:?}"));
             return false;
+        }
+        if opaque {
+            if let Err((o, e)) = self.check_opaque(id, any.erase()) {
+                self.viol(o, format!("{why}: object {id} ({kind:?}): {e}"));
+                return false;
+            }
         }
         if let Some(sid) = access::stored_id(any) {
             if sid != id {
@@ -284,7 +293,7 @@ impl<'w, 'r, 'gc> Cb<'w, 'r, 'gc> {
                     return;
                 }
                 seen.insert(id);
-                self.map.insert(id, any);
+                self.map.insert(id, access::canon(any));
                 let o = self.w.sh.objs[&id].clone();
                 if o.kind == Kind::SetHolder {
                     if let (Some(inner), Some(set)) = (o.strong[0], access::set_of(any)) {
@@ -516,8 +525,14 @@ impl<'w, 'r, 'gc> Cb<'w, 'r, 'gc> {
         let mc = self.mc;
         match op {
             Op::Alloc { id, kind } => {
-                let n_ids = if *kind == Kind::SetHolder { 2 } else { 1 };
-                if *kind == Kind::SetInner || (0..n_ids).any(|d| self.w.sh.objs.contains_key(&(id + d))) || tok::drops(*id) > 0 {
+                let n_ids = kind.ids_used();
+                let bad_kind = match kind {
+                    Kind::SetInner | Kind::Built { .. } | Kind::ZstShared => true,
+                    Kind::Lay { t, len } => *t as usize >= crate::lay::LAYS.len() || *len as usize > crate::lay::MAX_LEN,
+                    Kind::Slice { len } | Kind::Swh { len } => *len > 8,
+                    _ => false,
+                };
+                if bad_kind || (0..n_ids).any(|d| self.w.sh.objs.contains_key(&(id + d))) || tok::drops(*id) > 0 {
                     return self.skip();
                 }
                 self.alloc(*id, *kind);
@@ -536,9 +551,20 @@ impl<'w, 'r, 'gc> Cb<'w, 'r, 'gc> {
                 self.rep.only_barriers = false;
                 self.w.stats.flag("C03.burst");
             }
-            Op::Link { holder, slot, child, route } => {
+            Op::Link { holder, slot, child, route, conv } => {
                 let (Some(hany), Some(cany)) = (self.holder_any(*holder), self.map.get(child).copied()) else { return self.skip() };
                 let slot = *slot as usize;
+                // what is stored is the converted representation only (C19)
+                let (cany, cerr) = access::convert(mc, cany, *conv);
+                if let Some(e) = cerr {
+                    self.viol("C19.ptr-eq", format!("converting the pointer to {child}: {e}"));
+                    return;
+                }
+                let converted = std::mem::discriminant(&cany) != std::mem::discriminant(&access::canon(cany));
+                if converted {
+                    self.w.stats.flag("C19.converted-edge-stored");
+                    self.w.stats.cell(format!("conv|{conv:?}|{}", phase_name(self.phase)));
+                }
                 match hany {
                     None => {
                         if slot >= ROOT_STRONG {
@@ -575,6 +601,12 @@ impl<'w, 'r, 'gc> Cb<'w, 'r, 'gc> {
                                     self.viol("H.once", format!("set-once slot of {pid} accepted a second value"));
                                 }
                                 self.w.sh.set_strong(a, *holder, slot, Some(*child));
+                                if let Some(o) = self.w.sh.objs.get_mut(&pid) {
+                                    if o.conv.len() <= slot {
+                                        o.conv.resize(slot + 1, Conv::None);
+                                    }
+                                    o.conv[slot] = if converted { *conv } else { Conv::None };
+                                }
                                 self.note_mutation();
                                 self.note_adoption(*child);
                             }
@@ -763,13 +795,56 @@ impl<'w, 'r, 'gc> Cb<'w, 'r, 'gc> {
                 self.w.stats.callback_panics += 1;
                 std::panic::panic_any(Injected);
             }
+            Op::Builder { first, kind, n, stage } => self.op_builder(*first, *kind, *n as usize, *stage),
+            Op::Convert { obj, chain } => {
+                let Some(any) = self.map.get(obj).copied() else { return self.skip() };
+                let want = access::stored_id(any);
+                let mut cur = any;
+                for c in chain {
+                    let (next, err) = access::convert(mc, cur, *c);
+                    if let Some(e) = err {
+                        self.viol("C19.ptr-eq", format!("conversion chain on {obj}, step {c:?}: {e}"));
+                        return;
+                    }
+                    if next.addr() != any.addr() {
+                        self.viol("C19.ptr-eq", format!("conversion chain on {obj}, step {c:?}: address changed"));
+                        return;
+                    }
+                    if access::stored_id(next) != want {
+                        self.viol("C19.read", format!("conversion chain on {obj}, step {c:?}: the converted pointer reads id {:?}, the original {want:?}", access::stored_id(next)));
+                        return;
+                    }
+                    cur = next;
+                }
+                self.w.stats.cell(format!("convert-chain|{}", chain.len()));
+            }
+            Op::Zst { id, a: al, sized, via_static } => self.op_zst(*id, *al, *sized, *via_static),
         }
     }
 
     fn alloc(&mut self, id: Id, kind: Kind) {
         let a = self.a;
         let since = seam::mark();
-        let any = access::alloc(self.mc, kind, id);
+        let mut lay_info = None;
+        let any = match kind {
+            Kind::Lay { t, len } => {
+                let seed = crate::rng::mix(0x1A7, id as u64);
+                let made = (crate::lay::LAYS[t as usize].make)(self.mc, len as usize, seed);
+                if made.addr % made.align != 0 {
+                    self.w.violate("C17.align", format!("a new {} (length {len}) is at an address not aligned to {}", crate::lay::LAYS[t as usize].name, made.align));
+                }
+                if let Some(e) = &made.roundtrip {
+                    self.w.violate("C17.roundtrip", format!("a new {} (length {len}): {e}", crate::lay::LAYS[t as usize].name));
+                }
+                lay_info = Some((t, len as usize, seed, made.size, made.align));
+                if made.align > 16 || made.size == 0 {
+                    self.w.stats.flag("C17.exotic-layout");
+                }
+                self.w.stats.cell(format!("lay|{}", crate::lay::LAYS[t as usize].name));
+                AnyGc::Opaque(made.ptr)
+            }
+            _ => access::alloc(self.mc, kind, id),
+        };
         let ev = self.w.ev_index as u32;
         let mut register = |w: &mut World, id: Id, kind: Kind, addr: usize, toks: Vec<Id>| {
             let block = seam::attribute(addr, since, id);
@@ -780,7 +855,7 @@ impl<'w, 'r, 'gc> Cb<'w, 'r, 'gc> {
             if kind == Kind::SetHolder {
                 strong[0] = Some(id + 1);
             }
-            w.sh.objs.insert(id, Obj { kind, arena: a, strong, weak: vec![None; kind.n_weak()], toks, addr, block, destructed: false, released: false, born_event: ev });
+            w.sh.objs.insert(id, Obj { kind, arena: a, strong, weak: vec![None; kind.n_weak()], toks, addr, block, destructed: false, released: false, born_event: ev, lay: None, conv: vec![] });
             w.addr2id.insert(addr, id);
             w.sh.next_id = w.sh.next_id.max(id + 1);
             w.stats.allocs += 1;
@@ -803,11 +878,13 @@ impl<'w, 'r, 'gc> Cb<'w, 'r, 'gc> {
         }
         register(self.w, id, kind, any.addr(), if kind.has_tok() { vec![id] } else { vec![] });
         self.rep.allocated += 1;
-        // C17.align / extent at allocation
+        self.w.sh.objs.get_mut(&id).unwrap().lay = lay_info;
+        // C17.extent at allocation: the whole value lies inside the block the allocator handed out
         if let Some(b) = self.w.sh.objs[&id].block {
             let blk = seam::block(b);
-            if any.addr() < blk.user || any.addr() > blk.user + blk.size {
-                self.w.violate("C17.extent", format!("value of {id} lies outside the block the allocator handed out"));
+            let vsize = lay_info.map(|l| l.3).unwrap_or(0);
+            if any.addr() < blk.user || any.addr() + vsize > blk.user + blk.size {
+                self.w.violate("C17.extent", format!("value of {id} ({kind:?}, {vsize} bytes) does not lie inside the block the allocator handed out"));
             }
         }
         self.map.insert(id, any);
@@ -943,7 +1020,7 @@ impl<'w, 'r, 'gc> Cb<'w, 'r, 'gc> {
                         if self.w.ok() {
                             self.w.stats.flag("C05.stored");
                             self.w.rt[self.a as usize].up_stored.insert(t);
-                            self.exec_op_inner(&Op::Link { holder: h2, slot: s2, child: t, route });
+                            self.exec_op_inner(&Op::Link { holder: h2, slot: s2, child: t, route, conv: Conv::None });
                         }
                     }
                 }
@@ -1106,5 +1183,379 @@ pub fn route_label(kind: Kind, slot: usize, route: Route) -> String {
     match kind {
         Kind::Field => format!("slot{slot}"),
         _ => format!("{route:?}"),
+    }
+}
+
+// ------------------------------------------------------------------------------------------------
+// opaque leaves, builders, ZstCache (C17, C18, C19)
+
+use gc_arena::{GcBuilder, GcSliceBuilder, GcSliceWithHeaderBuilder, GcStrBuilder, GcThinSliceWithHeader, Static};
+
+#[repr(align(1))]
+#[derive(Clone, Copy, Default)]
+struct Zt1;
+#[repr(align(2))]
+#[derive(Clone, Copy, Default)]
+struct Zt2;
+#[repr(align(4))]
+#[derive(Clone, Copy, Default)]
+struct Zt4;
+#[repr(align(8))]
+#[derive(Clone, Copy, Default)]
+struct Zt8;
+#[repr(align(16))]
+#[derive(Clone, Copy, Default)]
+struct Zt16;
+#[repr(align(32))]
+#[derive(Clone, Copy, Default)]
+struct Zt32;
+#[repr(align(64))]
+#[derive(Clone, Copy, Default)]
+struct Zt64;
+gc_arena::static_collect!(Zt1);
+gc_arena::static_collect!(Zt2);
+gc_arena::static_collect!(Zt4);
+gc_arena::static_collect!(Zt8);
+gc_arena::static_collect!(Zt16);
+gc_arena::static_collect!(Zt32);
+gc_arena::static_collect!(Zt64);
+
+impl<'w, 'r, 'gc> Cb<'w, 'r, 'gc> {
+    /// Content check of an opaque leaf, stored as an erased thin pointer.
+    fn check_opaque(&mut self, id: Id, ptr: gc_arena::Gc<'gc, ()>) -> Result<(), (&'static str, String)> {
+        let o = self.w.sh.objs[&id].clone();
+        match o.kind {
+            Kind::Lay { t, .. } => {
+                let Some((_, len, seed, _, align)) = o.lay else { return Ok(()) };
+                if (gc_arena::Gc::as_ptr(ptr) as usize) % align != 0 {
+                    return Err(("C17.align", format!("address not aligned to {align}")));
+                }
+                (crate::lay::LAYS[t as usize].check)(ptr, len, seed).map_err(|e| ("C17.pattern", e))
+            }
+            Kind::Built { len } => {
+                let thin: GcThinSliceWithHeader<'gc, Tok, Tok> = unsafe { gc_arena::Gc::from_thin_ptr_with_kind(gc_arena::Gc::as_ptr(ptr) as *const Tok) };
+                let fat = gc_arena::Gc::as_fat(thin);
+                if fat.slice.len() != len as usize {
+                    return Err(("C18.content", format!("built with {len} elements, reads {}", fat.slice.len())));
+                }
+                if fat.header.0 != id || fat.slice.iter().enumerate().any(|(i, t)| t.0 != id + 1 + i as u32) {
+                    return Err(("C18.content", "header / elements do not read back what the builder wrote".to_string()));
+                }
+                Ok(())
+            }
+            _ => Ok(()),
+        }
+    }
+
+    fn op_zst(&mut self, id: Id, al: u8, sized: bool, via_static: bool) {
+        if self.w.sh.objs.contains_key(&id) || al > 6 {
+            return self.skip();
+        }
+        let a = self.a;
+        let mc = self.mc;
+        let cache = self.root.get().zst;
+        let count0 = mc.metrics().total_gc_count();
+        let since = seam::mark();
+        macro_rules! zst {
+            ($t:ty) => {{
+                let g = {
+                    let _t = seam::track();
+                    if via_static { cache.alloc_static(mc, <$t>::default()) } else { cache.alloc(mc, <$t>::default()) }
+                };
+                (cache.is_cached(g), gc_arena::Gc::as_ptr(g) as usize, gc_arena::Gc::erase(g), align_of::<$t>(), size_of::<$t>())
+            }};
+        }
+        let (cached, addr, erased, align, size) = if sized {
+            zst!(u64)
+        } else {
+            match al {
+                0 => zst!(Zt1),
+                1 => zst!(Zt2),
+                2 => zst!(Zt4),
+                3 => zst!(Zt8),
+                4 => zst!(Zt16),
+                5 => zst!(Zt32),
+                _ => zst!(Zt64),
+            }
+        };
+        let expect = size == 0 && align <= 16;
+        self.w.stats.cell(format!("zst|size{}|align{align}|{}", size.min(1), if cached { "cached" } else { "fresh" }));
+        if cached != expect {
+            self.viol("C19.zst-table", format!("ZstCache<16>: a value of size {size} and alignment {align} was {}", if cached { "served from the cache" } else { "allocated afresh" }));
+            return;
+        }
+        if addr % align != 0 {
+            self.viol("C19.zst-table", format!("ZstCache<16> returned a pointer not aligned to {align}"));
+            return;
+        }
+        let count1 = mc.metrics().total_gc_count();
+        if cached {
+            let shared = self.w.sh.arena(a).root_zst.and_then(|z| self.w.sh.objs.get(&z)).map(|o| o.addr);
+            if Some(addr) != shared || count1 != count0 {
+                self.viol("C19.zst-table", "a cached ZST pointer is not the cache's shared pointer, or allocated something".to_string());
+            }
+        } else {
+            // an ordinary allocation: a garbage leaf from here on
+            let block = seam::attribute(addr, since, id);
+            if block.is_none() && seam::active() {
+                self.viol("H.seam", format!("no allocator block found for the uncached ZstCache allocation {id}"));
+            }
+            let ev = self.w.ev_index as u32;
+            self.w.sh.objs.insert(id, Obj { kind: Kind::Lay { t: 254, len: 0 }, arena: a, strong: vec![], weak: vec![], toks: vec![], addr, block, destructed: false, released: false, born_event: ev, lay: None, conv: vec![] });
+            self.w.addr2id.insert(addr, id);
+            self.w.sh.next_id = self.w.sh.next_id.max(id + 1);
+            self.w.stats.allocs += 1;
+            let rt = &mut self.w.rt[a as usize];
+            rt.allocs += 1;
+            if let Some((_, n)) = rt.wake.as_mut() {
+                *n += 1;
+            }
+            if let Some((_, n)) = rt.sleep.as_mut() {
+                *n += 1;
+            }
+            let _ = erased;
+        }
+        self.rep.only_barriers = false;
+    }
+
+    /// C18: run one builder up to `stage` and account for every block and every part.
+    fn op_builder(&mut self, first: Id, kind: BKind, n: usize, stage: BStage) {
+        let n = n.min(8);
+        let ids = 1 + n as u32;
+        if (0..ids).any(|d| self.w.sh.objs.contains_key(&(first + d)) || tok::drops(first + d) > 0) {
+            return self.skip();
+        }
+        let a = self.a;
+        let mc = self.mc;
+        let m = mc.metrics().clone();
+        let (count0, debt0) = (m.total_gc_count(), m.allocation_debt());
+        let since = seam::mark();
+        let _cx = seam::enter(seam::CTX_BUILDER, a as u16);
+        self.rep.only_barriers = false;
+        self.w.sh.next_id = self.w.sh.next_id.max(first + ids);
+        // which parts get constructed, and what comes out
+        let mut made_header = false;
+        let mut made_elems = 0usize;
+        let mut completed: Option<gc_arena::Gc<'gc, ()>> = None;
+        let mut expected_panic = false;
+        let res = std::panic::catch_unwind(std::panic::AssertUnwindSafe(|| {
+            let _t = seam::track();
+            match kind {
+                BKind::Sized => match stage {
+                    BStage::Complete => {
+                        made_header = true;
+                        completed = Some(gc_arena::Gc::erase(GcBuilder::<Static<Tok>>::new().unwrap_static().write(mc, Tok(first))));
+                    }
+                    _ => drop(GcBuilder::<Static<Tok>>::new()),
+                },
+                BKind::Swh => {
+                    let b = GcSliceWithHeaderBuilder::<Tok, Tok>::new(n);
+                    match stage {
+                        BStage::AbandonNew => drop(b),
+                        BStage::AbandonAfterHeader => {
+                            made_header = true;
+                            drop(b.write_header(Tok(first)))
+                        }
+                        BStage::PanicAt(k) => {
+                            made_header = true;
+                            let k = (k as usize).min(n.saturating_sub(1));
+                            expected_panic = n > 0;
+                            let cnt = &mut made_elems;
+                            let g = b.write_header(Tok(first)).write_slice_with(mc, |i| {
+                                if i == k {
+                                    std::panic::panic_any(Injected)
+                                }
+                                *cnt += 1;
+                                Tok(first + 1 + i as u32)
+                            });
+                            completed = Some(gc_arena::Gc::erase(g));
+                        }
+                        _ => {
+                            made_header = true;
+                            let cnt = &mut made_elems;
+                            let g = b.write_header(Tok(first)).write_slice_with(mc, |i| {
+                                *cnt += 1;
+                                Tok(first + 1 + i as u32)
+                            });
+                            completed = Some(gc_arena::Gc::erase(g));
+                        }
+                    }
+                }
+                BKind::Slice => {
+                    let b = GcSliceBuilder::<Tok>::new(n);
+                    match stage {
+                        BStage::AbandonNew | BStage::AbandonAfterHeader => drop(b),
+                        BStage::PanicAt(k) => {
+                            let k = (k as usize).min(n.saturating_sub(1));
+                            expected_panic = n > 0;
+                            let cnt = &mut made_elems;
+                            let g = b.write_slice_with(mc, |i| {
+                                if i == k {
+                                    std::panic::panic_any(Injected)
+                                }
+                                *cnt += 1;
+                                Tok(first + 1 + i as u32)
+                            });
+                            // only reached when there was no element to panic at
+                            completed = Some(gc_arena::Gc::erase(g));
+                        }
+                        _ => {
+                            // completed token slices are left as garbage: abandon instead
+                            drop(b)
+                        }
+                    }
+                }
+                BKind::CopySlice => {
+                    let b = GcSliceBuilder::<Static<u32>>::new(n).unwrap_static();
+                    match stage {
+                        BStage::WrongLen(d) if d != 0 => {
+                            expected_panic = true;
+                            let src = {
+                                let _p = seam::pause();
+                                vec![7u32; (n as i64 + d as i64).max(0) as usize]
+                            };
+                            expected_panic = src.len() != n;
+                            let g = b.copy_slice(mc, &src);
+                            completed = Some(gc_arena::Gc::erase(g));
+                        }
+                        _ => drop(b),
+                    }
+                }
+                BKind::Str => {
+                    let b = GcStrBuilder::new(n);
+                    match stage {
+                        BStage::WrongLen(d) if d != 0 => {
+                            let src = {
+                                let _p = seam::pause();
+                                "x".repeat((n as i64 + d as i64).max(0) as usize)
+                            };
+                            expected_panic = src.len() != n;
+                            let g = b.copy_str(mc, &src);
+                            completed = Some(gc_arena::Gc::erase(g));
+                        }
+                        _ => drop(b),
+                    }
+                }
+                BKind::StaticSwh => {
+                    let b = GcSliceWithHeaderBuilder::<Static<u64>, Static<u16>>::new(n);
+                    match stage {
+                        BStage::AbandonNew => drop(b),
+                        BStage::AbandonAfterHeader => drop(b.unwrap_static_header().write_header(9)),
+                        _ => drop(b.unwrap_static_header().write_header(9).unwrap_static_element()),
+                    }
+                }
+            }
+        }));
+        let unwound = res.is_err();
+        // take the verdict out of the panic payload and release it (it was allocated while tracking)
+        let verdict: Option<(bool, String)> = res.err().map(|p| (p.downcast_ref::<Injected>().is_some(), panic_message(&p)));
+        if let Some((injected, msg)) = &verdict {
+            let injected = *injected;
+            if !injected && !(expected_panic && msg.contains("is not length")) {
+                self.viol("C18.copy-length", format!("builder {kind:?} {stage:?}: unexpected panic: {msg}"));
+                return;
+            }
+        } else if expected_panic && matches!(stage, BStage::WrongLen(_)) {
+            self.viol("C18.copy-length", format!("builder {kind:?}: a source of the wrong length was accepted"));
+            return;
+        }
+        self.w.stats.cell(format!("builder|{kind:?}|{}|{}", match stage { BStage::PanicAt(_) => "PanicAt".to_string(), BStage::WrongLen(_) => "WrongLen".to_string(), s => format!("{s:?}") }, phase_name(self.phase)));
+        if unwound || !matches!(stage, BStage::Complete) {
+            self.w.stats.flag("C18.abandoned");
+        }
+        // a completed object that reached the arena
+        let completed = if unwound { None } else { completed };
+        // ---- parts: exactly the initialised ones were destructed, exactly once
+        let survives = completed.is_some();
+        if !survives {
+            let mut want = vec![];
+            if made_header {
+                want.push(first);
+            }
+            for i in 0..made_elems {
+                want.push(first + 1 + i as u32);
+            }
+            for t in first..first + ids {
+                let d = tok::drops(t);
+                let w = want.contains(&t) as u8;
+                if d != w {
+                    self.viol("C18.parts", format!("builder {kind:?} {stage:?} (n = {n}): part {} was destructed {d} times, expected {w} (header written: {made_header}, elements initialised: {made_elems})", t - first));
+                    return;
+                }
+            }
+        }
+        // ---- the block: released at once, exactly once (layout and double free are the seam's)
+        let now = seam::mark();
+        let mut live_new = vec![];
+        for b in since..now {
+            if seam::block(b).live && seam::block(b).owner == 0 {
+                live_new.push(b);
+            }
+        }
+        let (count1, debt1) = (m.total_gc_count(), m.allocation_debt());
+        match completed {
+            None => {
+                if !live_new.is_empty() && seam::active() {
+                    let b = seam::block(live_new[0]);
+                    self.viol("C18.block", format!("builder {kind:?} {stage:?}: abandoned, but a block it allocated (size {}, align {}) was not released", b.size, b.align));
+                    return;
+                }
+                if count1 != count0 || debt1 != debt0 {
+                    self.viol("C18.visible", format!("builder {kind:?} {stage:?}: abandoned, but total_gc_count went {count0} -> {count1} and debt {debt0} -> {debt1}"));
+                    return;
+                }
+            }
+            Some(ptr) => {
+                if count1 != count0 + 1 {
+                    self.viol("C18.visible", format!("builder {kind:?}: completed, total_gc_count went {count0} -> {count1}"));
+                    return;
+                }
+                // from here on an ordinary arena object (a leaf), garbage unless linked later
+                let addr = gc_arena::Gc::as_ptr(ptr) as usize;
+                let block = seam::attribute(addr, since, first);
+                if block.is_none() && seam::active() {
+                    self.viol("H.seam", format!("no allocator block found for the completed builder object {first}"));
+                    return;
+                }
+                let mut toks: Vec<Id> = vec![];
+                if made_header {
+                    toks.push(first);
+                }
+                toks.extend((0..made_elems).map(|i| first + 1 + i as u32));
+                let okind = if kind == BKind::Swh { Kind::Built { len: n as u8 } } else { Kind::Lay { t: 253, len: 0 } };
+                for t in &toks {
+                    self.w.tok2obj.insert(*t, first);
+                }
+                let ev = self.w.ev_index as u32;
+                self.w.sh.objs.insert(first, Obj { kind: okind, arena: a, strong: vec![], weak: vec![], toks, addr, block, destructed: false, released: false, born_event: ev, lay: None, conv: vec![] });
+                self.w.addr2id.insert(addr, first);
+                self.w.stats.allocs += 1;
+                let rt = &mut self.w.rt[a as usize];
+                rt.allocs += 1;
+                if let Some((_, c)) = rt.wake.as_mut() {
+                    *c += 1;
+                }
+                if let Some((_, c)) = rt.sleep.as_mut() {
+                    *c += 1;
+                }
+                self.map.insert(first, AnyGc::Opaque(ptr));
+                self.fresh.insert(first);
+                self.w.stats.flag("C18.completed");
+                if let Err((o, e)) = self.check_opaque(first, ptr) {
+                    self.viol(o, format!("a just completed builder object: {e}"));
+                }
+            }
+        }
+        // never visible to the collector: the hook's object list does not contain it
+        if completed.is_none() && self.w.cfg.coverage {
+            let snap = mc.verif_snapshot();
+            for b in since..now {
+                let blk = seam::block(b);
+                if snap.objects.iter().any(|o| o.addr >= blk.user && o.addr <= blk.user + blk.size) {
+                    self.viol("C18.visible", format!("builder {kind:?} {stage:?}: its block is in the collector's object list"));
+                    return;
+                }
+            }
+        }
     }
 }
